@@ -130,6 +130,9 @@ def main(argv: list[str]) -> int:
 
     ledger = json.loads(LEDGER.read_text()) if LEDGER.exists() else {}
     base = set(ledger.get(pid, []))
+    # native failing inputs found by the bounded contract monitors of this property in this run: they serve as the
+    # native reproduction of a failed obligation when its own counter-model was not concretised
+    native = [f for rep in reports for f in rep.findings if match_known(known, f.key, f.what) is None]
     # 3. failed obligations -> replay natively
     for ob in obligations:
         if ob.status == 'discharged':
@@ -155,6 +158,11 @@ def main(argv: list[str]) -> int:
         if k is not None:
             known_hits.append(f"KNOWN-FINDING: property={pid} {k.get('what', key)}")
             continue
+        if finding is None and native:
+            nf = native[0]
+            finding = Finding(key=nf.key, what='native failing input (bounded contract monitor, same run): ' + nf.what,
+                              script=nf.script, data=nf.data)
+            what = finding.what + '\n' + what
         if finding is None and ob.id not in base and base:
             undecided.append(f'{ob.id}: new obligation (not in baseline ledger) failed without native reproduction: {ob.detail[:300]}')
             continue
